@@ -151,6 +151,13 @@ def main(argv=None):
     # class quotas: calibrated on the quick tier (seeds 0-6); the thorough tier explores >= 10x more, it must
     # reach at least 5x the quick quota of every class
     quotas = dict(meta.get('quotas', {}).get('quick', {}))
+    # quotas of the shared workload classes (interference, exotic strings, ...), calibrated by tools/calib.py --write:
+    # a fifth of the minimum seen over seeds 0-3 of the quick tier
+    extra_path = os.path.join(VERIF, 'mtv', 'quotas_extra.json')
+    if os.path.exists(extra_path):
+        with open(extra_path) as f:
+            for k, v in json.load(f).get(prop, {}).items():
+                quotas.setdefault(k, v)
     if args.tier == 'thorough':
         fixed = set(meta.get('quotas_fixed', []))        # counters of parts whose size does not grow with the tier
         quotas = {k: (v if k in fixed else 5 * v) for k, v in quotas.items()}
